@@ -23,6 +23,13 @@ class SymFile:
         self.n_reads += 1
         return SymBytes(out)
 
+    def readinto(self, arr):
+        n = min(len(arr), len(self.content) - self.pos)
+        for i in range(n):
+            arr[i] = self.content[self.pos + i]
+        self.pos += n
+        return n
+
     def write(self, b):
         data = list(b.sym) if isinstance(b, SymBytes) else list(bytes(b))
         self.content[self.pos:self.pos + len(data)] = data
